@@ -28,10 +28,10 @@ var c18OpNames = []string{"fetch", "advance_clock", "publish", "restart", "tear_
 
 // Advance kinds.
 const (
-	AdvSmall       = iota // 1..600 s
-	AdvBaseMinus1         // to cached base nextUpdate - 1s
-	AdvBaseAt             // exactly nextUpdate
-	AdvBasePlus1          // nextUpdate + 1s
+	AdvSmall      = iota // 1..600 s
+	AdvBaseMinus1        // to cached base nextUpdate - 1s
+	AdvBaseAt            // exactly nextUpdate
+	AdvBasePlus1         // nextUpdate + 1s
 	AdvDeltaMinus1
 	AdvDeltaAt
 	AdvDeltaPlus1
@@ -53,8 +53,8 @@ type c18Op struct {
 	CancelKind int // 0 none, 1 before, 2 after CancelMs
 	CancelMs   int
 	// advance
-	Adv     int
-	SmallS  int
+	Adv    int
+	SmallS int
 	// publish
 	PubBase, PubDelta bool
 	// tear
